@@ -47,6 +47,7 @@ def run(ctx):
     # integers) or float32 arrays shared by all calls of the session (a call that writes into its arguments, or that treats
     # an integer container differently, breaks the laws between later calls)
     for i, sp in enumerate(specs):
+        sp["edit"] = int(i % 2 == 0)      # shared objects overwritten in place with doubled coordinates, all calls made again
         sp["container"] = [None, "array", "int", "array", "float32", "int"][i % 6]   # (nested lists are outside sliced_wasserstein's documented input type np.array)
     for sp in specs:
         e = sp["emb"]
